@@ -222,6 +222,73 @@ def scenario(cfg, n_resume, seed2, second_gen=False):
         shutil.rmtree(tmp, ignore_errors=True)
 
 
+def used_writer_scenario(cfg, variant, seed2):
+    """The WRITER is a sampler object that has already run, written checkpoints and then had another history loaded (an earlier
+    checkpoint of its own, or a checkpoint of another run).  Every checkpoint it writes afterwards, loaded into a fresh
+    sampler, must be the state the writer had when it wrote it."""
+    from tempest.core import SamplerCore
+    out = dict(bad=[], saves_after=0, restored=0)
+    tmp, tmp0 = tmpdir(), tmpdir()
+    try:
+        c = runs.full(cfg)
+        np.random.seed(c["seed"])
+        s, t, like, pt = _build(c, tmp)
+        s.run(n_total=c["n_total"], progress=False, save_every=1)
+        own = sorted((f for f in os.listdir(tmp) if f.startswith("ck_") and "final" not in f and f.endswith(".state")),
+                     key=lambda f: int(f.split("_")[1].split(".")[0]))
+        if not own:
+            out["bad"].append(("no-checkpoint-written", "run(save_every=1) wrote no checkpoint"))
+            return out
+        if variant.startswith("foreign"):
+            np.random.seed(seed2)
+            s0 = _build(dict(c, seed=seed2), tmp0)[0]
+            s0.run(n_total=c["n_total"], progress=False, save_every=1)
+            other = sorted((f for f in os.listdir(tmp0) if f.startswith("ck_") and f.endswith(".state")),
+                           key=lambda f: (("final" in f), int(f.split("_")[1].split(".")[0]) if "final" not in f else 0))
+            src = os.path.join(tmp0, other[{"foreign-last": -1, "foreign-mid": len(other) // 2}.get(variant, -1)])
+        else:
+            src = os.path.join(tmp, own[max(0, len(own) // 3)])
+        saves = []
+        with attach.Hooks() as hk:
+            def after(ctx, r, self, path):
+                if self is s._core:
+                    sm = self.state
+                    saves.append(dict(path=str(path), dg=state_digest(sm), hl=sm.get_history_length()))
+            hk.wrap(SamplerCore, "save_sampler_state", after=after)
+            attach.iteration_budget(hk, 400)
+            np.random.seed(seed2 + 7)
+            if variant.startswith("foreign"):
+                s.load_state(src)
+                s.save_state(os.path.join(tmp, "manual.state"))
+                s.run(n_total=2 * c["n_total"], progress=False, resume_state_path=src, save_every=3)
+            else:
+                se = {"rewind-final-only": 10 ** 6, "rewind-every-2": 2, "rewind-every-1": 1}[variant]
+                s.run(n_total=2 * c["n_total"], progress=False, resume_state_path=src, save_every=se)
+                s.save_state(os.path.join(tmp, "manual.state"))
+        out["saves_after"] = len(saves)
+        last = {}
+        for sv in saves:
+            last[sv["path"]] = sv           # a path written twice holds the later state
+        for pth, sv in last.items():
+            s2 = _build(c, tmp)[0]
+            try:
+                s2.load_state(pth)
+            except Exception as e:
+                out["bad"].append(("load-raises", f"[{variant}] load_state({os.path.basename(pth)}) raised {type(e).__name__}: {e}"))
+                continue
+            out["restored"] += 1
+            if state_digest(s2.state) != sv["dg"]:
+                out["bad"].append(("restore-mismatch-used-writer", f"[{variant}] {os.path.basename(pth)} written by a sampler object that had been re-loaded: the "
+                                   f"file does not hold the state the writer had when it wrote it (history length {s2.state.get_history_length()} vs {sv['hl']})"))
+        return out
+    except Exception as e:
+        out["bad"].append(("used-writer-raises", f"[{variant}] {type(e).__name__}: {e}\n{fmt_exc()[-400:]}"))
+        return out
+    finally:
+        shutil.rmtree(tmp, ignore_errors=True)
+        shutil.rmtree(tmp0, ignore_errors=True)
+
+
 # --------------------------------------------------------------------------- crash safety
 def _child_save(s, P, plan, tmp, wfd=None, bufsize=8192):
     try:
@@ -458,6 +525,25 @@ def run():
         ck.event("second-generation resumes (checkpoint written by a resumed run)", val.get("second_gen", 0))
         for key, what in val["bad"]:
             ck.violation(key, what, dict(cfg=cfg))
+    # checkpoints written by a re-used sampler object
+    ut = []
+    uvars = ["rewind-final-only", "foreign-last", "rewind-every-2", "foreign-mid", "rewind-every-1"]
+    for j in range(ck.pick(5, 30)):
+        ut.append(("tvf.checks.c08:used_writer_scenario", dict(cfg=make_cfg([0, 1, 2, 3, 5, 6][j % 6], ck.subseed("uw", j)), variant=uvars[j % 5],
+                                                                seed2=ck.subseed("uw2", j) % 10 ** 6), None))
+    for i, st, val in farm.run(ut, timeout=900, progress="C08-used-writer"):
+        kw = ut[i][1]
+        if st == "timeout":
+            ck.inconc(f"used-writer scenario {kw['variant']}: watchdog")
+            continue
+        if st != "ok":
+            ck.violation("scenario-crashed", f"{kw}: {st} {str(val)[-500:]}", kw)
+            continue
+        ck.case(dict(used_writer=kw), nontrivial=val["restored"] > 0)
+        ck.event("checkpoints written by a sampler object after it had another history loaded", val["saves_after"])
+        ck.event("... restored into a fresh sampler and compared", val["restored"])
+        for key, what in val["bad"]:
+            ck.violation(key, what, kw)
     # crash points
     ctasks = []
     maxp = ck.pick(40, 260)
@@ -515,6 +601,7 @@ def run():
             for key, what in val["bad"]:
                 ck.violation(key, what, dict(engine="strace", syscall=sc))
     ck.require_events("checkpoints restored into a fresh sampler and compared", "resumed runs that executed further iterations",
+                      "... restored into a fresh sampler and compared",
                       "kill points at which the child really died")
     return ck.finish(
         rule="configurations {vec/scalar/blobs, tpcn/rwm, clustering, cluster_every, pool-like object, integer pool, volume mode, "
